@@ -14,7 +14,15 @@ class Ctx:
         import shutil
         shutil.rmtree(self.work, ignore_errors=True)      # every run starts from an empty work directory
         os.makedirs(self.work, exist_ok=True)
-        self.registry = json.load(open(os.path.join(pv.OUT, "registry.json")))
+        built = json.load(open(os.path.join(pv.OUT, "registry.json")))
+        spec = set(pv.spec_registry())
+        # instructions the build registers: those the specification gives a meaning to, and the others (a registered
+        # instruction without a specification is parsed, printed and executed like any other, but its steps are not judged)
+        self.registry = [n for n in built if n in spec]
+        self.extra = [n for n in built if n not in spec]
+        xp = os.path.join(self.work, "extra_instr.json")
+        json.dump(self.extra, open(xp, "w"))
+        os.environ["PV_EXTRA_INSTR"] = xp if self.extra else ""
         self.base = None
         self.stats = dict(states=0, transitions=0, events=0, cases_replayed=0, tlc_runs=[], envelope=0,
                           foreign_mismatches=0, stages=[])
@@ -95,8 +103,8 @@ def behav_stage(ctx, which, n, steps=600):
     return len(cs)
 
 
-def random_program_cases(ctx, n, seed, max_points=40, steps=120, prefix="rp"):
-    g = gen.Gen(seed, ctx.registry)
+def random_program_cases(ctx, n, seed, max_points=40, steps=120, prefix="rp", registry=None):
+    g = gen.Gen(seed, registry or ctx.registry)
     cases = []
     for i in range(n):
         s = g.program_state(g.r.randint(1, max_points))
